@@ -397,6 +397,12 @@ func checkC07Unknown(c *Ctx, n int) {
 			if afterNonOption {
 				cs.Opts |= flags.PassAfterNonOption
 			}
+			// a struct the declaration excludes with no-flag: whatever it declares is not declared
+			if cs.Build[0].Struct != nil {
+				tag := []string{`no-flag:"1"`, `no-flag:"yes" group:"Excluded"`, `group:"Excluded" no-flag:"true"`}[r.Intn(3)]
+				cs.Build[0].Struct.Fields = append(cs.Build[0].Struct.Fields, FieldDesc{Name: "NfStruct", Exported: true, Kind: "s", Tag: tag,
+					Sub: &StructDesc{Fields: []FieldDesc{{Name: "NfInner", Exported: true, Kind: "v", Ty: "bool", Tag: `long:"nf-inner" short:"Y"`}}}})
+			}
 			switch policy {
 			case "ignore":
 				cs.Opts |= flags.IgnoreUnknown
@@ -415,7 +421,13 @@ func checkC07Unknown(c *Ctx, n int) {
 		}
 		// the unknown token: a name nothing in scope declares
 		var uname string
+		if r.Intn(4) == 0 {
+			uname = "nf-inner" // (declared only inside the excluded struct)
+		}
 		for _, cand := range []string{"zz-unk", "Z", "É", "世", "q9", "Q"} {
+			if uname != "" {
+				break
+			}
 			pre := "--"
 			if len([]rune(cand)) == 1 {
 				pre = "-"
